@@ -677,6 +677,14 @@ def pin_variants(ci, length):
          ("colons-4", _colons(true, 4)), ("other-cert-digest", other), ("empty", ""), ("colons-only", "::"),
          ("all-zero", "0" * length), ("nonhex-g", "g" * length), ("nonhex-last", true[:-1] + "g"),
          ("nonhex-space", " " + true[1:]), ("nonhex-0x", "0x" + true[2:])]
+    # the true digest with something that is neither a hex digit nor a colon INSERTED (only colons are ignored):
+    # separators other hex parsers skip (bytes.fromhex / int(x, 16) skip whitespace, '_' ...), at every kind of place
+    for name, sep in (("sp", " "), ("tab", "\t"), ("lf", "\n"), ("cr", "\r"), ("vt", "\x0b"), ("ff", "\x0c"), ("dash", "-"), ("dot", "."),
+                      ("underscore", "_"), ("nul", "\x00"), ("nbsp", "\xa0"), ("plus", "+")):
+        v += [("ins-%s-start" % name, sep + true), ("ins-%s-end" % name, true + sep), ("ins-%s-mid" % name, true[:6] + sep + true[6:]),
+              ("ins-%s-every-2" % name, sep.join(true[i:i + 2] for i in range(0, len(true), 2))),
+              ("ins-%s-with-colons" % name, _colons(true) + sep), ("ins-%s-2-end" % name, true + sep + sep)]
+    v += [("ins-0x-prefix", "0x" + true), ("ins-0X-prefix", "0X" + true), ("ins-h-suffix", true + "h")]
     for i in range(length):
         for d in HEXD:
             if d != true[i]:
@@ -716,7 +724,7 @@ def check_fp(case):
     out = {"expected": exp, "observed": obs, "violations": []}
     if cl:
         tag = case.get("tag", "?")
-        fam = tag.split("-")[0] if tag.startswith(("flip", "trunc", "ext")) else tag
+        fam = tag.split("-")[0] if tag.startswith(("flip", "trunc", "ext", "ins")) else tag
         if tag.startswith("flip") and tag.endswith("colons"):
             fam = "flip-upper-colons"
         norm_len = len(pin.replace(":", "")) if isinstance(pin, str) else None
